@@ -55,9 +55,11 @@ ASSUMPTIONS = [
     "backend: the model is fitted on numpy data or on dask arrays (one chunk, chunked along the first sample dim, along the first feature dim; chunking along both "
     "is a documented refusal of dask's svd and not enumerated) with EOF(compute=True/False); for dask-backed models the second run of clause (e) is a fresh "
     "bootstrapper on the same data fitted in memory (checks dask_equals_memory_*)",
+    "scale: the whole field is multiplied by 1e-6 / 1e-3 / 1 / 1e4 (standardize off, so the factor reaches the decomposition) on the closed-form 'dipole' field; "
+    "the orientation clause is decided for every member mode whose scores exceed 1e-6 of the member's leading singular value",
     "provenance 'refit': every clause is applied to the SECOND fit of one bootstrapper object; clause (e) relates it to a fresh object with the same seed",
 ]
-TALLY_KEYS = ("mclass", "prov", "backend", "mcompute", "container", "names", "flags", "shape", "spec", "n_modes", "n_boot", "bseed")
+TALLY_KEYS = ("mclass", "prov", "backend", "mcompute", "scale", "container", "names", "flags", "shape", "spec", "n_modes", "n_boot", "bseed")
 TRUSTED = ["model.data['input_data'] as the definition of the model's own preprocessed samples"]
 
 TOL = 1e-7  # member fits run with solver='auto' (randomized on most of these shapes): DESIGN 4.3
@@ -66,6 +68,7 @@ GAP = 1e-3
 NAMES = {"default": ("sample", "feature"), "sf": ("s", "f"), "s_only": ("s", "feature"), "f_only": ("sample", "f")}
 LATS = {1: [40.0], 2: [-30.0, 50.0], 3: [-60.0, 10.0, 75.0]}
 SPLIT = {4: (2, 2), 6: (3, 2), 9: (3, 3), 12: (4, 3)}
+SCALES = (1e-6, 1e-3, 1.0, 1e4)  # global factor on the whole field (units); every clause is scale-covariant, every tolerance relative
 BACKENDS = ("numpy", "dask1", "dask_s", "dask_f")  # in memory; dask with one chunk; chunked along the first sample dim; along the first feature dim
 FLAGS_ALL = ["".join(t) for t in itertools.product("TF", "FT", "FT", "FT")]  # center, standardize, coslat, weights
 
@@ -77,12 +80,12 @@ def cases(tier, seed):
     out = []
     seen = set()
 
-    def add(container, names, flags, shape, spec, k, nb, bs, mclass="EOF", prov="fresh", backend="numpy", mcompute=True):
+    def add(container, names, flags, shape, spec, k, nb, bs, mclass="EOF", prov="fresh", backend="numpy", mcompute=True, scale=1.0):
         n, p = shape
         kk = min(n, p) if k == "max" else k
         if kk > min(n, p):
             return
-        c = dict(model="EOFBootstrapper", mclass=mclass, prov=prov, backend=backend, mcompute=mcompute, container=container, names=names, flags=flags, shape=list(shape), spec=spec, n_modes=kk, n_boot=nb, bseed=bs)
+        c = dict(model="EOFBootstrapper", mclass=mclass, prov=prov, backend=backend, mcompute=mcompute, scale=scale, container=container, names=names, flags=flags, shape=list(shape), spec=spec, n_modes=kk, n_boot=nb, bseed=bs)
         key = json.dumps(c, sort_keys=True)
         if key not in seen:
             seen.add(key)
@@ -135,6 +138,15 @@ def cases(tier, seed):
                         add(cont, "default", "TFFF", shape, spec, k, nb, bs, backend=backend, mcompute=mcompute)
                 add("da", "sf", "TTTT", (12, 6), "flat_pair", 2, 2, 0, backend=backend, mcompute=mcompute)
                 add("da2s", "default", "TFFF", (12, 6), "geometric", 1, 2, 7, backend=backend, mcompute=mcompute)
+        # G: global scale (physical units) of a field whose patterns are dipoles: the solver's raw orientation flips between resamples
+        for scale in SCALES:
+            for cont in ("da", "ds", "list"):
+                for fl in ("TFFF", "FFFF"):
+                    for k in (3, "max"):
+                        add(cont, "default", fl, (12, 6), "dipole", k, 3, 7, scale=scale)
+            for nm in ("default", "sf"):
+                add("da", nm, "TFFF", (6, 4), "dipole", 2, 3, 1, scale=scale)
+            add("da", "default", "TFFF", (12, 6), "dipole", 2, 2, 1, scale=scale, backend="dask1")
     else:
         for cont in containers:
             for nm in names:
@@ -199,10 +211,39 @@ def cases(tier, seed):
                 add("da", "default", "TFFF", (6, 4), "geometric", 2, 50, 0, backend=backend, mcompute=mcompute)
                 for prov in ("refit_same", "refit_other"):
                     add("da", "default", "TFFF", (12, 6), "geometric", 2, 2, 1, prov=prov, backend=backend, mcompute=mcompute)
+        for scale in SCALES:
+            for cont in containers:
+                for nm in ("default", "sf"):
+                    if nm == "sf" and cont != "da":
+                        continue
+                    for fl in ("TFFF", "FFFF"):
+                        for shape in ((12, 6), (6, 4), (4, 6)):
+                            for k in (1, 2, "max"):
+                                for nb, bs in ((2, 1), (3, 7)):
+                                    add(cont, nm, fl, shape, "dipole", k, nb, bs, scale=scale)
+            add("da", "default", "TFFF", (12, 6), "dipole", 3, 50, 0, scale=scale)
+            add("da", "default", "TFFF", (12, 6), "dipole", 2, 2, 1, scale=scale, backend="dask_s", mcompute=False)
+            add("da", "default", "TFTT", (12, 6), "dipole", 3, 3, 7, scale=scale)
     return out
 
 
 # ----------------------------------------------------------------------------- labelled containers
+
+
+def dipole_matrix(n, p, seed, salt=0):
+    """Closed-form field U diag(8 * 2^-i) V^T + mean whose patterns V are dipoles (e_2j - e_2j+1)/sqrt(2), then (e_2j + e_2j+1)/sqrt(2):
+    the two largest loadings of every pattern tie in magnitude, so which of them a resample makes the largest - i.e. the raw
+    orientation the solver's sign convention picks - changes from member to member. U (orthonormal, orthogonal to 1) comes from `seed`."""
+    assert p % 2 == 0
+    rng = np.random.default_rng([int(seed), n, p, 7020, int(salt)])
+    r = min(n - 1, p)
+    V = np.zeros((p, p))
+    for j in range(p // 2):
+        V[2 * j, j], V[2 * j + 1, j] = 1.0, -1.0
+        V[2 * j, p // 2 + j], V[2 * j + 1, p // 2 + j] = 1.0, 1.0
+    V = V[:, :r] / np.sqrt(2.0)
+    U = D._orth(rng, n, r, False, True)
+    return (U * D.spectrum("geometric", r)) @ V.T + (rng.standard_normal(p) * 3.0)[None, :]
 
 
 def build(case, seed, salt=0, backend=None):
@@ -212,7 +253,11 @@ def build(case, seed, salt=0, backend=None):
 
     n, p = case["shape"]
     cont = case["container"]
-    X0 = D.make_matrix(n, p, case["spec"], 1.0, case.get("mclass") == "ComplexEOF", seed, salt=salt)
+    if case["spec"] == "dipole":
+        X0 = dipole_matrix(n, p, seed, salt)
+    else:
+        X0 = D.make_matrix(n, p, case["spec"], 1.0, case.get("mclass") == "ComplexEOF", seed, salt=salt)
+    X0 = X0 * float(case.get("scale", 1.0))
     fl = case["flags"]
     use_w = fl[3] == "T"
     rng = np.random.default_rng([seed, 2020, p])
@@ -538,7 +583,7 @@ def run_case(case, seed):
     dask_backed = case.get("backend", "numpy") != "numpy"
     rep_name = "dask_equals_memory" if dask_backed else "reproducible"
     prov = case.get("prov", "fresh")
-    feats = dict(container=case["container"], default_names=case["names"] == "default", fitted=mclass, complex=mclass != "EOF", prov=prov, dask=dask_backed)
+    feats = dict(container=case["container"], default_names=case["names"] == "default", fitted=mclass, complex=mclass != "EOF", prov=prov, dask=dask_backed, unit_scale=float(case.get("scale", 1.0)) == 1.0)
     V = []
 
     def bad(check, msg, **extra):
